@@ -5,6 +5,14 @@ with and without {GLOBALSYMBOLS}) whose bodies define labels with names that als
 enclosing bodies; references stand inside the bodies (before and after the body's own definition), in nested constructs, behind
 the construct (on its own level, behind the enclosing one, at the end of the program) and carry the section qualifiers `name[]`,
 `name[PARENTn]`, `name[section]`; labels are defined behind constructs and reached through `name[]`.
+Temporary symbols inside the bodies (`LGen.tmp_block`, `tmp_shape`): composed names `.name` (and `$$name`, `-` `+` `/`) defined and
+referenced in bodies in other spellings, behind labels written in lower / mixed / upper case that stand outside the construct or in
+the body itself, with the same composed name defined outside, the written-out composed name (`Start.lp`) referenced behind the
+construct, with and without -U.  The counter assignments of a WHILE loop are statements of the program (they define a symbol, i.e.
+they are what `.name` is composed with).  (C) for composed names: `Spec/LocTmp.compose` (loops written out, `.name` replaced by
+`<most recently defined symbol>.name` in assembly order) in front of `LocScope.expand`; `$$name` / nameless symbols in bodies are
+compared with the model only.  (A) `Props/C13_TmpLoc.lean`: the key FindLocNode looks up = the key EnterLocSymbol stored (compose,
+then fold), spelling of the last label / of the temporary name immaterial without -U.
 
 (B) real asl vs `SymLoc.assembleL` (handle stack PushLocHandle / PopLocHandle / GetLocHandle per iteration, FindLocNode before
 FindNode, EnterLocSymbol, pass loop), (C) `LocScope.expand` (every expansion / iteration has a label space of its own: the body's
@@ -34,20 +42,31 @@ KIND_NAME = dict(m="MACRO", r="REPT", i="IRP", n="IRPN", c="IRPC", w="WHILE")
 # ----------------------------------------------------------------------------------------------
 # trees:  ("op", stmt) | ("con", kind, glob, n, body) | ("call", k)       macros: list of (glob, body)
 
-def tokens(items, macros):
+def tokens(items, macros, wc=None):
+    """driver tokens; the counter of a WHILE loop (`wcN := 0` in front of it, `wcN := wcN+1` as the last body line) is part of the
+    program: an assignment is a definition of a non-temporary symbol (it opens a range of temporary symbols).  Its value is never
+    referenced, the token carries 0."""
     out = []
+    wc = wc if wc is not None else [0]
     for it in items:
         if it[0] == "op":
             out.append(base.tok(it[1]))
         elif it[0] == "call":
             g, body = macros[it[1]]
             out.append("{:m:%d:1" % (1 if g else 0))
-            out += tokens(body, macros)
+            out += tokens(body, macros, [1000 * (it[1] + 1)])
             out.append("}")
         else:
             _, kind, glob, n, body = it
+            w = None
+            if kind == "w":
+                wc[0] += 1
+                w = base.tok(("D", "wc%d" % wc[0], 0, True, "asg"))
+                out.append(w)
             out.append("{:%s:%d:%d" % (kind, 1 if glob else 0, n))
-            out += tokens(body, macros)
+            out += tokens(body, macros, wc)
+            if w:
+                out.append(w)
             out.append("}")
     return out
 
@@ -96,8 +115,10 @@ def source(prog, c):
     lines = ["\tcpu\t%s" % c["cpu"], "\torg\t0"]
     for k, (g, body) in enumerate(macros):
         lines.append("mc%d\tmacro%s" % (k, "\t{GLOBALSYMBOLS}" if g else ""))
+        r.wc = 1000 * (k + 1)          # WHILE counters: numbered per macro text (as `tokens` does at every call)
         r.items(body, lines)
         lines.append("\tendm")
+    r.wc = 0
     r.items(items, lines)
     return "\n".join(lines) + "\n"
 
@@ -116,7 +137,13 @@ class LGen:
         self.secdefs = {}
         self.in_macro = False
         self.fresh = 0
-        self.stats = dict(constructs=0, nested=0, calls=0, glob=0, body_labels=0, body_refs=0, after_refs=0, qual_refs=0,
+        # temporary symbols (.name, $$name, - + /) inside the bodies, behind labels written in lower / mixed / upper case
+        self.tmp = rng.random() < 0.4
+        # mostly composed names alone (the spec of the label spaces judges those); otherwise all forms (model = real only)
+        self.tmpkinds = ["dot"] if rng.random() < 0.65 else ["dot", "dot", "dot", "dol", "nameless"]
+        self.topn = 0
+        self.stats = dict(tmp_programs=1 if self.tmp else 0, tmp_dot=0, tmp_dollar=0, tmp_nameless=0, tmp_opener_inside=0, tmp_global_same=0,
+                          constructs=0, nested=0, calls=0, glob=0, body_labels=0, body_refs=0, after_refs=0, qual_refs=0,
                           sections=0, labels_after=0, kinds={}, iters={})
 
     def f(self, n):
@@ -180,6 +207,67 @@ class LGen:
             out |= set(self.secdefs.get(path[:k], ()))
         return sorted(out)
 
+    def casing(self, n):
+        """a spelling of a fresh name with lower-case letters, mixed case, or capitals only (the *written* form is what a composed
+        temporary name is built from)"""
+        r = self.rng.random()
+        return n.lower() if r < 0.35 else n.capitalize() if r < 0.6 else n.swapcase() if r < 0.7 else n.upper()
+
+    def tmp_def(self, t, refs):
+        r = self.rng.random()
+        if r < 0.4:
+            return ("op", ("L", t, "c"))
+        if r < 0.6:
+            return ("op", ("L", t, "p"))
+        if r < 0.8:
+            return ("op", ("T", t))
+        return ("op", ("W", t, self.rng.choice(refs)))
+
+    def tmp_block(self, inside):
+        """statements with temporary symbols: [a label that opens the range] [reference] definition reference(s)"""
+        rng = self.rng
+        kind = rng.choice(self.tmpkinds)
+        out = []
+        if kind == "nameless":
+            self.stats["tmp_nameless"] += 1
+            nb = 0
+            pend = 0
+            for _ in range(rng.choice([2, 3, 4])):
+                r = rng.random()
+                if r < 0.3:
+                    out.append(("op", ("L", rng.choice("-/"), "c")))
+                    nb += 1
+                    pend = max(0, pend - 1)
+                elif r < 0.45:
+                    out.append(("op", ("L", "+", "c")))
+                    pend = max(0, pend - 1)
+                elif r < 0.75 and nb:
+                    out.append(("op", ("U", "-" * rng.randint(1, min(3, nb)))))
+                else:
+                    k = rng.randint(1, 2)
+                    out.append(("op", ("U", "+" * k)))
+                    pend = max(pend, k)
+            for _ in range(pend):
+                out.append(("op", ("L", rng.choice("+/"), "c")))
+            return out
+        if kind == "dot":
+            t = rng.choice([".lp", ".lp", ".L1"])
+            self.stats["tmp_dot"] += 1
+        else:
+            t = rng.choice(["$$lp", "$$Go"])
+            self.stats["tmp_dollar"] += 1
+        if rng.random() < (0.5 if inside else 0.8):
+            self.topn += 1
+            out.append(("op", ("L", self.casing("tp%dx" % self.topn), rng.choice("cp"))))
+            if inside:
+                self.stats["tmp_opener_inside"] += 1
+        if rng.random() < 0.2:
+            out.append(("op", ("U", self.spell(t))))
+        out.append(self.tmp_def(t, [t, self.spell(t)]))
+        for _ in range(rng.choice([1, 1, 2])):
+            out.append(("op", ("U", self.spell(t))))
+        return out
+
     def body(self, depth, path, outer_labels, in_macro, n_iter, glob, callable_macros):
         """one body text; returns (items, labels it defines in its own space)"""
         rng = self.rng
@@ -226,6 +314,10 @@ class LGen:
                 self.stats["nested"] += 1
         if not items:
             items.append(("op", ("U", self.ref(visible, path))))
+        if self.tmp and not (glob and n_iter != 1):
+            for _ in range(rng.choice([0, 1, 1, 2])):
+                pos = rng.randrange(len(items) + 1)
+                items[pos:pos] = self.tmp_block(True)
         return items, own
 
     def construct(self, depth, path, outer_labels, callable_macros):
@@ -271,6 +363,11 @@ class LGen:
         for _ in range(n_el):
             r = rng.random()
             if r < 0.5:
+                if self.tmp and rng.random() < 0.6:
+                    # the same temporary names outside: the composed name exists globally / in the section
+                    blk = self.tmp_block(False)
+                    items += blk
+                    self.stats["tmp_global_same"] += 1
                 items += self.construct(1, path, [], callable_macros)
                 if rng.random() < 0.35:
                     # a label behind the construct and a reference that names its section
@@ -379,8 +476,54 @@ def shape(kind, n, glob, where, fwd, cs_spelling):
     return items, macros
 
 
+def tmp_shape(rng, kind, n, glob, lastcase, inside, global_same, fwd, cs):
+    """systematic: a label `Start` written in lower / mixed / upper case, optionally a composed temporary `.lp` of its range outside;
+    a construct whose body optionally opens a range of its own (`Inner`, same spellings), defines `.lp` and refers to it in other
+    spellings; behind the construct the composed names written in full"""
+    sp = dict(lower=str.lower, mixed=str.capitalize, upper=str.upper)[lastcase]
+    alt = (lambda x: x) if cs else (lambda x: rng.choice([x, x.upper(), x.lower(), x.swapcase()]))
+    start, inner = sp("start"), sp("inner")
+    t = rng.choice([".lp", ".Lp"])
+    head = [("op", ("D", "mark", 0x1111, False, "equ")), ("op", ("L", start, "c"))]
+    if global_same:
+        head += [("op", ("L", t, "c")), ("op", ("U", alt(t)))]
+    body = []
+    if inside:
+        body.append(("op", ("L", inner, rng.choice("cp"))))
+    if fwd:
+        body.append(("op", ("U", alt(t))))
+    body += [("op", ("L", t, rng.choice("cp"))), ("op", ("U", alt(t))), ("op", ("U", "mark"))]
+    if rng.random() < 0.5:
+        body.append(("op", ("W", "x_1", alt(t))))
+    macros = []
+    if kind == "m":
+        macros.append((glob, body))
+        con = [("call", 0)] * n
+    else:
+        con = [("con", kind, glob, n, body)]
+    after = [("op", ("L", sp("after"), "c"))]
+    if global_same:
+        after.append(("op", ("U", alt(start + t))))
+    if rng.random() < 0.5:
+        after += [("op", ("L", t, "c")), ("op", ("U", alt(t)))]
+    return head + con + after, macros
+
+
 def gen_cases(rng, n_rand):
     cases = []
+    for kind in KINDS:
+        for lastcase in ("lower", "mixed", "upper"):
+            for inside in (False, True):
+                for global_same in (False, True):
+                    n = rng.choice([1, 2, 2, 3])
+                    glob = rng.random() < 0.1
+                    if glob:
+                        n = 1
+                    fwd = rng.random() < 0.2
+                    cs = rng.random() < 0.25
+                    prog = tmp_shape(rng, kind, n, glob, lastcase, inside, global_same, fwd, cs)
+                    cases.append(dict(tag="loc:tmp:%s:n%d:g%d:%s:i%d:s%d:f%d:u%d" % (kind, n, glob, lastcase, inside, global_same, fwd, cs), cs=cs,
+                                      cpu=rng.choice(list(base.CPUS)), prog=prog, stats=None))
     for kind in KINDS:
         for n in (1, 2, 3, 4):
             for glob in (False, True):
